@@ -139,6 +139,9 @@ pub fn non_object() -> impl Strategy<Value = J> {
         key().prop_map(J::S),
         proptest::collection::vec(leaf(false), 0..4).prop_map(J::A),
         object(false).prop_map(|o| J::A(vec![o])),
+        // strings whose *content* is JSON text (double-encoded metadata): still strings, not objects
+        prop_oneof![Just("{}"), Just("{\"name\":\"x\"}"), Just(" {}"), Just("{\"a\":{\"b\":[1,2]}}"), Just("[]"), Just("null"), Just("{")].prop_map(|t| J::S(t.to_string())),
+        object(false).prop_map(|o| J::S(o.to_value().to_string())),
         // long values, mostly multi-byte characters (whatever a reader quotes, truncates or measures)
         "\\PC{20,200}".prop_map(J::S),
         (20u32..3000, any::<u8>()).prop_map(|(n, s)| J::Big(n, s)),
